@@ -308,6 +308,7 @@ func runSched(o checks.Opts) *report.Report {
 		if len(sc.Callers) >= 4 && b > 2 {
 			b = 2
 		}
+
 		e := &explore.Explorer{Bound: b, Shard: o.Shard, Shards: o.Shards, ShardLvl: 2}
 		if !o.Quick() {
 			// the thorough tier is capped per scenario and shard (reported, exhaustive=false when hit)
@@ -340,6 +341,55 @@ func runSched(o checks.Opts) *report.Report {
 		if o.Shard == 0 {
 			rep.Samples = append(rep.Samples, map[string]any{"scenario": sc, "default_schedule_outcome": o1, "choice_points": len(c1.Points)})
 		}
+	}
+	return rep
+}
+
+// wideScenarios: more distinct images in flight at once than any plausible internal limit. Twelve
+// threads are beyond a complete enumeration even without preemptions (every blocking point has
+// many successors), so the depth-first enumeration is cut after a fixed number of executions and
+// reported as capped.
+var wideScenarios = []scenario{
+	{"6x1-distinct", [][]string{{"d1"}, {"d2"}, {"d3"}, {"d4"}, {"d5"}, {"d6"}}, -1},
+	{"9x1-distinct", [][]string{{"d1"}, {"d2"}, {"d3"}, {"d4"}, {"d5"}, {"d6"}, {"d7"}, {"d8"}, {"d9"}}, -1},
+}
+
+func runWide(o checks.Opts) *report.Report {
+	rep := report.New("C20", "sched-wide")
+	rep.Exhaustive = false
+	rep.Bounds["auxiliary"] = true // a capped enumeration: does not count towards the check's exhaustive flag
+	rep.Bounds["preemptions"] = 1
+	rep.Bounds["scenarios"] = len(wideScenarios)
+	capExec := int64(20000)
+	if !o.Quick() {
+		capExec = 400000
+	}
+	rep.Bounds["executions_per_scenario"] = capExec
+	rep.Rule = "6 and 9 callers pulling pairwise distinct images: depth-first enumeration of the interleavings (<= 1 preemption) of the real RequestManager.Pull callers in canonical order, cut after `executions_per_scenario` executions (capped, not exhaustive); same oracle as sched"
+	for i, sc := range wideScenarios {
+		if o.Shards > 1 && i%o.Shards != o.Shard {
+			continue
+		}
+		e := &explore.Explorer{Bound: 1, MaxExec: capExec}
+		st := e.Explore(body(sc))
+		if len(st.Divergences) > 0 {
+			rep.Fault = "replay divergence: " + st.Divergences[0]
+			return rep
+		}
+		rep.Executions += st.Executions
+		rep.ImplTraces += st.Executions
+		rep.Transitions += st.Points
+		rep.States += st.Executions
+		for k, v := range st.Outcomes {
+			rep.Outcomes[sc.Name+" "+k] += v
+		}
+		if st.Capped {
+			rep.CapsHit = append(rep.CapsHit, fmt.Sprintf("%s: cut after %d executions", sc.Name, capExec))
+		}
+		for _, v := range st.Violations {
+			rep.AddViolation(report.Violation{Identity: identity(v.Message), Message: v.Message, Params: map[string]any{"scenario": sc}, Choices: v.Choices, Labels: v.Labels})
+		}
+		rep.NViolations += st.NViolations - int64(len(st.Violations))
 	}
 	return rep
 }
@@ -413,6 +463,7 @@ func init() {
 				return 8
 			}, Run: runSched, Replay: replaySched},
 			{Name: "race", Run: runRace, Race: true},
+			{Name: "sched-wide", Shards: func(string) int { return 2 }, Run: runWide, Replay: replaySched},
 		},
 	})
 }
